@@ -85,6 +85,8 @@ def structures(tier):
             for lens_ in combos:
                 for noise in ((False, True, 'fs') if (tier == 'thorough' or k == 2) else (False,)):
                     sts.append({'kind': 'syscall', 'name': n, 'lens': lens_, 'noise': noise})
+                if k >= 2:
+                    sts.append({'kind': 'syscall', 'name': n, 'lens': lens_, 'noise': False, 'same_tick': True})
     return sts
 
 
@@ -370,6 +372,9 @@ def run_syscall(ctx, st):
     for i, t in enumerate(texts):
         recs, ts = _records(K.chunk_lookup(t, ctx.int('vnode%d' % i)), by_name['VFS_LOOKUP'], ts, st['noise'])
         evs += recs
+    if st.get('same_tick'):
+        # all lookup records written in the same timer tick (timestamps are not unique)
+        evs = [(k, e._replace(timestamp=11) if k == 'chunk' else e) for k, e in evs]
     evs.append(('end', sweep.make_event(ts + 1, r, TID, by_name[name] | 2)))
     p = sweep.new_parser()
     out = []
